@@ -493,9 +493,12 @@ def run(ctx, drv):
     EXTS[:] = sorted(set(e for l in FileLanguage._language_extensions.values() for e in l))
     ctx.rule = ("case = random multi-platform code base (harness/gen/codebase.py with a file link and a directory link) decorated with "
                 "further file links, directory links (top-level, nested, to a directory outside), a header outside the code base, "
-                "`./` and `x/../` segments; compile commands, -I options and #include directives spelled through aliases; compared with "
+                "`./` and `x/../` segments, link chains (link -> link -> file), the outside directory a sibling whose name shares a prefix with the root, "
+                "in half of the cases exclude patterns (a vendored directory, alias names) with innocent-named links to excluded files; "
+                "compile commands, -I options and #include directives spelled through aliases; compared with "
                 "the canonical variant (no links, canonical spellings). Non-trivial = distinct case with at least one link in which a "
-                "command or an #include actually goes through an alias.")
+                "command or an #include actually goes through an alias.  Every third case continues with a history step: a file link is re-pointed "
+                "to another file and the analysis repeated in the same process must equal the analysis of a copy of the tree at another path.")
     ctx.assumptions += [
         "links to files sit in the directory of their target or are directory links, so that the directory an #include is resolved "
         "against is the same for every alias (which directory a preprocessor uses for a file reached through a link is C04's question)",
